@@ -144,6 +144,19 @@ class C12Profile(Profile):
 
         W._register_sim_marker()
         faults.install_ctrl_c(ctx)
+        if ctx.desc.get("focus") == "max_failures" and ctx.sched.policy is not None and ctx.desc["run_seed"] % 2 == 0:
+            # aim the schedule at the instant a failing scenario is published: the publisher loses the baton, the other
+            # workers and the consumer keep it (limit accounting must not depend on who runs next)
+            sched = ctx.sched
+
+            def put_hook(item) -> None:
+                if type(item).__name__ == "ScenarioFinished" and getattr(item.status, "value", None) in ("failure", "error"):
+                    sched.hot = 300
+                    sched.hot_p = 0.95
+                    sched.hot_avoid = sched.current.sid
+                    sched.probes["aimed_preemption"] += 1
+
+            sched.put_hook = put_hook
 
     def judge(self, ctx, status: str) -> list[dict]:
         from ..oracles import c12
